@@ -14,7 +14,7 @@ LEVEL = 'exploration'
 RULE = ('generated projects x generated --privacy rule lists (exact names and patterns, all three levels, two rule lists per '
         'project): hidden classes that are bases of visible classes, hidden modules that are imported from, hidden members '
         'that are overridden or cross-referenced, hidden containers with visible-by-rule children, private objects in every '
-        'listing; real driver, full output crawled. For every hidden object (unique name): no file, no anchor, no link '
+        'listing; real driver, full output crawled, plus one partial build per project (--html-subject naming objects inside and outside hidden containers). For every hidden object (unique name): no file, no anchor, no link '
         'target, no listing entry, no all-documents record, no search reference, no inventory line. For every private object: '
         'every listing entry (child table row, member detail block, sidebar item, index item, all-documents record) carries '
         'the private marker. Distinct: (project, rule list); non-trivial: at least one hidden and one private object.')
@@ -29,7 +29,7 @@ def cases(tier: str, seed: int) -> List[Dict[str, Any]]:
     out: List[Dict[str, Any]] = []
     n = 120 if tier == 'quick' else 2500
     for k in range(0, n, PER):
-        out.append({'part': 'G', 'seed': seed, 'k': k, 'n': PER, 'variants': 2 if tier == 'quick' else 4})
+        out.append({'part': 'G', 'seed': seed, 'k': k, 'n': PER, 'variants': 2 if tier == 'quick' else 4, 'subjects': True})
     out.append({'part': 'P', 'path': '/repo/pydoctor/epydoc' if False else str(Path(core.repo_dir()) / 'pydoctor' / 'epydoc'),
                 'privacy': ['HIDDEN:epydoc.markup._types', 'HIDDEN:epydoc.markup.ParsedDocstring', 'PRIVATE:epydoc.doctest', 'HIDDEN:**.to_stan']})
     return out
